@@ -483,6 +483,21 @@ def extract_obligations(rep, tier):
             ob.replay = {"confirmed": True, "native": ob.detail}
     ob.seconds = time.time() - t0
     obs.append(ob)
+    # the statement-shape obligations below speak about single statements; they count only while the body is EXACTLY the statement list
+    # they were read from (a body that only adds a statement - e.g. one that rewrites transtimes afterwards - must not pass)
+    EXACT_BODY = (
+        "offsetfrom = component.TZOFFSETFROM\noffsetto = component.TZOFFSETTO\ndtstart = component.DTSTART\n"
+        "offsetto_s = int((offsetto.seconds + 30) / 60) * 60\noffsetto = timedelta(days=offsetto.days, seconds=offsetto_s)\n"
+        "offsetfrom_s = int((offsetfrom.seconds + 30) / 60) * 60\noffsetfrom = timedelta(days=offsetfrom.days, seconds=offsetfrom_s)\n"
+        "if 'RRULE' in component:\n    tzi = dateutil.tz.tzoffset('(offsetfrom)', offsetfrom)\n    rrstart = dtstart.replace(tzinfo=tzi)\n"
+        "    rrulestr = component['RRULE'].to_ical().decode('utf-8')\n    rrule = dateutil.rrule.rrulestr(rrulestr, dtstart=rrstart)\n"
+        "    tzp.fix_rrule_until(rrule, component['RRULE'])\n    transtimes = [dt.replace(tzinfo=None) for dt in rrule]\n"
+        "elif 'RDATE' in component:\n    if not isinstance(component['RDATE'], list):\n        rdates = [component['RDATE']]\n    else:\n"
+        "        rdates = component['RDATE']\n    transtimes = [dtstart] + [leaf.dt for tree in rdates for leaf in tree.dts]\nelse:\n"
+        "    transtimes = [dtstart]\ntransitions = [(transtime, offsetfrom, offsetto, tzname) for transtime in set(transtimes)]\n"
+        "if component.name == 'STANDARD':\n    is_dst = 0\nelif component.name == 'DAYLIGHT':\n    is_dst = 1\nreturn (is_dst, transitions)")
+    got_body = "\n".join(ast.unparse(x) for x in source.strip_docstring(node.body))
+    body_exact = got_body == EXACT_BODY
     # kind and tuple shape
     src = "\n".join(ast.unparse(x) for x in ast.walk(node) if isinstance(x, ast.stmt))
     want = ["transitions = [(transtime, offsetfrom, offsetto, tzname) for transtime in set(transtimes)]",
@@ -512,6 +527,14 @@ def extract_obligations(rep, tier):
     if miss:
         ob.shape_only = True
     obs.append(ob)
+    if not body_exact:
+        gl, wl = got_body.split("\n"), EXACT_BODY.split("\n")
+        i = next((k for k in range(min(len(gl), len(wl))) if gl[k] != wl[k]), min(len(gl), len(wl)))
+        for o in obs[1:]:
+            if o.status == PROVED:
+                o.status = UNDECIDED
+                o.detail = (f"the body of _extract_offsets is no longer the statement list this obligation was read from (statement {i + 1} is "
+                            f"`{(gl[i] if i < len(gl) else '<end>').strip()}`): the single-statement shape proves nothing then")
     return obs
 
 
